@@ -246,6 +246,8 @@ func init() {
 				emit(Result{ID: fmt.Sprintf("%s/%s/cold-cut%d", cs.ID, cs.Fmt, cut), OK: false, Kind: "truncated-read",
 					Detail: fmt.Sprintf("ReadSystemFromFile on the first %d of %d bytes in a fresh process: %s %s — KeysFile.tla: a strict prefix never loads", cut, cs.Total, o, d),
 					Case:   map[string]interface{}{"id": cs.ID, "fmt": cs.Fmt, "cuts": []int{cut}, "total": cs.Total}})
+				// one accepted / panicking / hanging prefix in the cold process is a verdict; a hang has also left a stuck reader behind
+				return
 			}
 		}
 		if o, d := readFile(cs.Path); o != "loaded" {
